@@ -73,6 +73,57 @@ pub fn dense_specs(tier: Tier) -> Vec<FileSpec> {
     v
 }
 
+fn varint_len(v: usize) -> usize {
+    match v {
+        0..=127 => 1,
+        128..=16383 => 2,
+        16384..=2097151 => 3,
+        _ => 4,
+    }
+}
+
+/// Exact-fit family: files in which a data block (and, with 495-byte keys, an index block two
+/// levels below the root) reaches EXACTLY the configured block size, followed by more entries —
+/// the boundary case of the cut test.
+pub fn exact_fit_specs() -> Vec<FileSpec> {
+    let mut v = Vec::new();
+    for b in [Some(1024usize), Some(1025), Some(2048), Some(4096), None, Some(0)] {
+        let b_eff = std::cmp::max(1024, b.unwrap_or(8192));
+        for iv in [None, Some(1usize), Some(2)] {
+            let ivn = iv.unwrap_or(8);
+            for k in 1..=3usize {
+                let slots = std::cmp::max(1, k.div_ceil(ivn));
+                // k-1 entries of 104 bytes (2-byte key, 100-byte value), then one sized to land on b_eff
+                let fixed = 4 + 8 * slots + 104 * (k - 1) + 1 + 2;
+                if b_eff <= fixed + 2 {
+                    continue;
+                }
+                let target = b_eff - fixed; // = vlen + varint_len(vlen)
+                let Some(vlen) = (target.saturating_sub(4)..target).find(|v| v + varint_len(*v) == target) else { continue };
+                for delta in [0isize, -1, 1] {
+                    let mut shapes = vec![Shape { klen: 2, vlen: 100 }; k - 1];
+                    shapes.push(Shape { klen: 2, vlen: (vlen as isize + delta) as usize });
+                    shapes.push(Shape { klen: 2, vlen: 3 });
+                    shapes.push(Shape { klen: 2, vlen: 100 });
+                    for l in [0u8, 2] {
+                        v.push(spec_shapes(FileCfg::layout(b, iv, l), &shapes));
+                    }
+                }
+            }
+        }
+    }
+    // index blocks two levels below the root that reach exactly 1024 bytes with two entries:
+    // 2 * (2 + 1 + klen + 8) + 8 + 4 = 1024 for klen = 495 (interval >= 2)
+    for klen in [494usize, 495, 496] {
+        for l in [2u8, 3] {
+            for iv in [None, Some(2)] {
+                v.push(FileSpec::new(FileCfg::layout(Some(1024), iv, l), EntrySpec::Uniform { n: 9, klen, vlen: 600, wide: false }));
+            }
+        }
+    }
+    v
+}
+
 /// The C01/C09/C15 file population, as groups of (shape sequences x configurations) plus a list
 /// of fixed files. See `Population::describe` for what each group crosses.
 pub struct Group {
@@ -143,6 +194,7 @@ impl Population {
                 fixed.push(s);
             }
         }
+        fixed.extend(exact_fit_specs());
         // zstd level 19 and maximal depth with every codec, on a few files
         for n in [0usize, 3, 9] {
             fixed.push(FileSpec::new(
@@ -192,7 +244,7 @@ impl Population {
                     "files": g.seqs.len() * g.cfgs.len()})
             })
             .collect();
-        v.push(serde_json::json!({"group": "deep, dense, zstd-19 and max-depth files x every codec", "files": self.fixed.len()}));
+        v.push(serde_json::json!({"group": "deep, dense, exact-fit (a block reaches exactly the block size), zstd-19 and max-depth files", "files": self.fixed.len()}));
         serde_json::Value::Array(v)
     }
 }
